@@ -147,7 +147,7 @@ Print Assumptions C15_dropsub_order_matters_only_with_duplicates.
 
 (* non-vacuity: the hypotheses of C15_snapshot_transparent hold on a log that touches every part of the state, under a
    configuration with expand-shards-enable on *)
-Definition ex_cfg : config := {| cfg_expand := true; cfg_expandf := fun c => set_max_mst c (C16.Model.max_mst c + 100) |}.
+Definition ex_cfg : config := {| cfg_expand := true; cfg_expandf := fun c => set_max_mst c (C16.Model.max_mst c + 100); cfg_sgtier := 1 |}.
 Definition ex_pick : list Z -> option Z := fun l => nth_error l 0.
 Definition E (i : Z) (x : xcmd) : entry := (1, i, x).
 Definition ex_l1 : list entry := [
